@@ -32,66 +32,6 @@ import Pyro5.errors as E
 _RUN = {"sched": None}
 
 
-class _SelectShim:
-    """select.select() over the in-memory sockets, and MSG_PEEK for their recv().  The kernel has no seam for the `select`
-    module (the unchanged Pyro5 never reaches it inside a run); a changed tree that polls a connection with
-    select + recv(MSG_PEEK) would otherwise hit the REAL select with made-up descriptor numbers.  Installed for the
-    duration of a run in every Pyro5 module that imported `select`; belongs into sim/seams.py + sim/net.py eventually."""
-
-    def __init__(self, sched):
-        self._s = sched
-        self._patched = []
-        self._recv = None
-
-    def __getattr__(self, name):
-        return getattr(_select, name)
-
-    @staticmethod
-    def _readable(s):
-        return bool(s.rx) or s.eof or s.reset or s.closed or s.shut_rd
-
-    def select(self, rlist, wlist, xlist, timeout=None):
-        def ready():
-            return [s for s in rlist if self._readable(s)]
-        r = ready()
-        if not r and not wlist and (timeout is None or timeout > 0):
-            self._s.block(lambda: bool(ready()), timeout, "select.select")
-            r = ready()
-        return r, list(wlist), []
-
-    def install(self):
-        for name, m in sorted(sys.modules.items()):
-            if name.startswith("Pyro5.") and getattr(m, "select", None) is _select:
-                m.select = self
-                self._patched.append(m)
-        shim, orig = self, N.SimSocket.recv
-        self._recv = orig
-
-        def recv(sock, n, flags=0):
-            if not flags & _socket.MSG_PEEK:
-                return orig(sock, n, flags)
-            if sock.closed:
-                raise OSError(errno.EBADF, "Bad file descriptor")
-            if not shim._readable(sock):
-                if sock.timeout == 0.0:
-                    raise BlockingIOError(errno.EAGAIN, "Resource temporarily unavailable")
-                if not shim._s.block(lambda: shim._readable(sock), sock.timeout, "recv-peek"):
-                    raise _socket.timeout("timed out")
-            if sock.rx:
-                return bytes(sock.rx[:n])
-            if sock.reset:
-                raise ConnectionResetError(errno.ECONNRESET, "Connection reset by peer")
-            return b""
-
-        N.SimSocket.recv = recv
-
-    def uninstall(self):
-        for m in self._patched:
-            m.select = _select
-        if self._recv is not None:
-            N.SimSocket.recv = self._recv
-
-
 class Acc:
     """exposure is per method: `hidden` is deliberately left unexposed, `_secret` is private"""
 
@@ -449,12 +389,9 @@ class BatchWorld(World):
     def scenario(self, ctx):
         registered = []
         _RUN["sched"] = ctx.sched
-        shim = _SelectShim(ctx.sched)
-        shim.install()
         try:
             self._scenario(ctx, registered)
         finally:
-            shim.uninstall()
             _RUN["sched"] = None
             for daemon, cls in registered:
                 try:
